@@ -22,10 +22,11 @@ class Type:
 class Basic(Type):
     """bool, string, the sized integers, and the untyped constant kinds."""
 
-    __slots__ = ("name", "kind", "bits", "signed", "lo", "hi", "mask", "half", "untyped")
+    __slots__ = ("name", "kind", "bits", "signed", "lo", "hi", "mask", "half", "untyped", "canon")
 
     def __init__(self, name: str, kind: str, bits: int = 0, signed: bool = False, untyped: bool = False):
         self.name = name
+        self.canon = self  # byte / rune are aliases: canon is uint8 / int32
         self.kind = kind  # 'int' 'bool' 'string' 'nil' 'float'
         self.bits = bits
         self.signed = signed
@@ -39,6 +40,9 @@ class Basic(Type):
                 self.lo, self.hi = 0, (1 << bits) - 1
         else:
             self.mask = self.half = self.lo = self.hi = None
+
+    def underlying(self) -> "Type":
+        return self.canon
 
     def __repr__(self):
         return f"<{self.name}>"
@@ -165,6 +169,12 @@ UINT16 = Basic("uint16", "int", 16, False)
 UINT32 = Basic("uint32", "int", 32, False)
 UINT64 = Basic("uint64", "int", 64, False)
 UINTPTR = Basic("uintptr", "int", 64, False)
+# alias names keep their spelling for type strings but are identical to
+# uint8 / int32 (underlying() yields the canonical object)
+BYTE = Basic("byte", "int", 8, False)
+BYTE.canon = UINT8
+RUNE = Basic("rune", "int", 32, True)
+RUNE.canon = INT32
 
 UNTYPED_INT = Basic("untyped int", "int", untyped=True)
 UNTYPED_RUNE = Basic("untyped rune", "int", untyped=True)
@@ -181,7 +191,7 @@ UNIVERSE_TYPES: Dict[str, Type] = {
     "bool": BOOL, "string": STRING,
     "int": INT, "int8": INT8, "int16": INT16, "int32": INT32, "int64": INT64,
     "uint": UINT, "uint8": UINT8, "uint16": UINT16, "uint32": UINT32, "uint64": UINT64,
-    "uintptr": UINTPTR, "byte": UINT8, "rune": INT32,
+    "uintptr": UINTPTR, "byte": BYTE, "rune": RUNE,
     "error": ERROR, "any": EMPTY_INTERFACE,
 }
 UNSUPPORTED_UNIVERSE_TYPES = frozenset(["float32", "float64", "complex64", "complex128", "comparable"])
@@ -198,7 +208,7 @@ def default_type(t: Type) -> Type:
         if t is UNTYPED_INT:
             return INT
         if t is UNTYPED_RUNE:
-            return INT32
+            return RUNE
         if t is UNTYPED_BOOL:
             return BOOL
         if t is UNTYPED_STRING:
@@ -249,6 +259,12 @@ def is_named(t: Type) -> bool:
 
 
 def identical(a: Type, b: Type) -> bool:
+    if a is b:
+        return True
+    if a.__class__ is Basic:
+        a = a.canon
+    if b.__class__ is Basic:
+        b = b.canon
     if a is b:
         return True
     ta, tb = type(a), type(b)
@@ -337,8 +353,6 @@ def type_str(t: Type, qualify: bool = True, rel_pkg: Optional[str] = None) -> st
     """Go-style rendering.  Named types of packages other than ``rel_pkg`` are
     qualified with their *package name* when ``qualify`` is true."""
     if isinstance(t, Basic):
-        if t is UINT8:
-            return "uint8"
         return t.name
     if isinstance(t, Named):
         if qualify and t.pkg and t.pkg != rel_pkg:
@@ -387,7 +401,7 @@ def type_key(t: Type) -> str:
     """A canonical string that is equal for identical types (full import paths
     for named types).  Used as key of run-time type descriptors."""
     if isinstance(t, Basic):
-        return t.name if t is not UINT8 else "uint8"
+        return t.canon.name
     if isinstance(t, Named):
         return f'"{t.pkg}".{t.name}'
     if isinstance(t, Pointer):
